@@ -12,6 +12,7 @@ import DebInspector.Props.C14
 import DebInspector.Props.C15
 import DebInspector.Props.C17
 import DebInspector.Props.C18
+import DebInspector.Props.C19
 import DebInspector.Props.C20
 
 open Proto
@@ -30,6 +31,9 @@ def dispatch (op : String) (v : Val) : Option Val :=
   | "C15" => Props.C15.check.run v
   | "C15m" => Props.C15.checkM.run v
   | "C18" => Props.C18.check.run v
+  | "C19" => Props.C19.run v
+  | "C19t" => Props.C19.checkT.run v
+  | "C19m" => Props.C19.checkM.run v
   | "C20" => Props.C20.check.run v
   | "C20p" => Props.C20.checkPartial.run v
   | "C17a" => Props.C17.checkA.run v
